@@ -191,7 +191,7 @@ theorem clamp_snd (neg : Bool) (mag n : Nat) : (clamp neg mag n).2.1 = n := by
   unfold clamp; repeat' split
   all_goals rfl
 
-theorem NumTok.tail_head (t : NumTok) (hv : t.valid = true) :
+theorem NumTok.tail_head (t : NumTok) (hv : t.valid = true) (hfe : (t.frac.isSome || t.exp.isSome) = true) :
     ∃ c r, t.tail = c :: r ∧ (c = 46 ∨ c = 101 ∨ c = 69) := by
   unfold NumTok.valid at hv
   unfold NumTok.tail
@@ -199,7 +199,7 @@ theorem NumTok.tail_head (t : NumTok) (hv : t.valid = true) :
   | some ds => exact ⟨46, _, rfl, Or.inl rfl⟩
   | none =>
     cases he : t.exp with
-    | none => simp [hf, he] at hv
+    | none => simp [hf, he] at hfe
     | some x =>
       obtain ⟨e, s, ds⟩ := x
       simp only [hf, he, Bool.and_eq_true, Bool.or_eq_true, decide_eq_true_eq] at hv
@@ -207,10 +207,40 @@ theorem NumTok.tail_head (t : NumTok) (hv : t.valid = true) :
       have := hv.1.2.1.1.1
       omega
 
-theorem parseNumber_dbl (sd : SD) (D : Bytes → Nat) (hsd : SdSpec sd D) (t : NumTok) (rest : Bytes)
-    (hv : t.valid = true) (hdl : delim rest = true) :
+/-- an integer literal beyond int64 is read through the double branch -/
+theorem parseNumber_big (sd : SD) (D : Bytes → Nat) (hsd : SdSpec sd D) (t : NumTok) (rest : Bytes)
+    (hv : t.valid = true) (hfe : (t.frac.isSome || t.exp.isSome) = false) (hdl : delim rest = true) :
     parseNumber sd (t.text ++ rest) = .ok (.f64 (D t.text), rest) := by
-  obtain ⟨c, r, htl, hc⟩ := t.tail_head hv
+  have hf : t.frac = none := by cases h : t.frac <;> simp [h] at hfe ⊢
+  have he : t.exp = none := by cases h : t.exp <;> simp [h] at hfe ⊢
+  have hbig : t.big = true := by
+    unfold NumTok.valid at hv
+    simp only [hf, he, Option.isSome_none, Bool.false_or, Bool.and_eq_true] at hv
+    exact hv.2
+  have htail : t.tail = [] := by simp [NumTok.tail, hf, he]
+  have htext : t.text = signText t.neg ++ Conv.digits t.ip := by simp [NumTok.text, htail]
+  have hs := strtoll_digits t.neg t.ip rest (delim_numEnd rest hdl)
+  obtain ⟨c0, r0, hdg, -, -, -⟩ := digits_head t.ip
+  have hsd' := hsd t rest hv hdl
+  have hlen : t.text.length ≠ 0 := by simp [htext, hdg]
+  have hdrop : (t.text ++ rest).drop t.text.length = rest := List.drop_left
+  have hcl : clamp t.neg t.ip ((signText t.neg).length + (Conv.digits t.ip).length) =
+      ((if t.neg then -(2 ^ 63 : Int) else (2 ^ 63 - 1 : Int)), (signText t.neg).length + (Conv.digits t.ip).length, true) := by
+    unfold NumTok.big at hbig
+    unfold clamp
+    cases hn : t.neg <;> simp [hn] at hbig ⊢ <;> omega
+  have hnz : (signText t.neg).length + (Conv.digits t.ip).length ≠ 0 := by rw [hdg]; simp
+  unfold parseNumber
+  rw [hsd']
+  rw [htext] at *
+  have hdne : Conv.digits t.ip ≠ [] := by rw [hdg]; simp
+  rw [hs, hcl]
+  simp [hnz, hlen, hdrop, hdne]
+
+theorem parseNumber_fracexp (sd : SD) (D : Bytes → Nat) (hsd : SdSpec sd D) (t : NumTok) (rest : Bytes)
+    (hv : t.valid = true) (hfe : (t.frac.isSome || t.exp.isSome) = true) (hdl : delim rest = true) :
+    parseNumber sd (t.text ++ rest) = .ok (.f64 (D t.text), rest) := by
+  obtain ⟨c, r, htl, hc⟩ := t.tail_head hv hfe
   have hne : numEnd (t.tail ++ rest) = true := by
     rw [htl]
     simp only [List.cons_append, numEnd, isDigit, Bool.and_eq_true, Bool.not_eq_true', Bool.and_eq_false_iff,
@@ -242,5 +272,12 @@ theorem parseNumber_dbl (sd : SD) (D : Bytes → Nat) (hsd : SdSpec sd D) (t : N
     rw [show signText t.neg ++ (Conv.digits t.ip ++ c :: (r ++ rest)) = t.text ++ rest from by simp [NumTok.text, htl]]
     exact List.drop_left
   cases er <;> simp [hnz, hc', hlen, hdne, hsd', hfin]
+
+theorem parseNumber_dbl (sd : SD) (D : Bytes → Nat) (hsd : SdSpec sd D) (t : NumTok) (rest : Bytes)
+    (hv : t.valid = true) (hdl : delim rest = true) :
+    parseNumber sd (t.text ++ rest) = .ok (.f64 (D t.text), rest) := by
+  cases hfe : (t.frac.isSome || t.exp.isSome)
+  · exact parseNumber_big sd D hsd t rest hv hfe hdl
+  · exact parseNumber_fracexp sd D hsd t rest hv hfe hdl
 
 end IwModel.Json
